@@ -211,12 +211,93 @@ def gen_rec(rng, faults=True, n_max=10, **kw):
     return gen_plain(rng, faults=faults, n_max=n_max)
 
 
+def _closure(rel, x):
+    seen = set()
+    todo = [x]
+    while todo:
+        y = todo.pop()
+        for z in rel.get(y, ()):
+            if z not in seen:
+                seen.add(z)
+                todo.append(z)
+    return seen
+
+
+def _outside_reader(edges, P, dest, desc):
+    for a, b in edges:
+        if a in P and a != dest and b not in P and b not in desc:
+            return True
+    return False
+
+
+def gen_rec_nested(rng, faults=True, n_max=10, **kw):
+    """two nested recurrent subgraphs (inner path inside the outer path) over a plain DAG"""
+    for _ in range(60):
+        spec = gen_skeleton(rng, n_min=4, n_max=n_max, p_noparam=0.03)
+        prune(spec)
+        nodes = {n['name']: n for n in spec['nodes']}
+        edges = declared_edges(spec)
+        succ, pred = {}, {}
+        for a, b in edges:
+            succ.setdefault(a, set()).add(b)
+            pred.setdefault(b, set()).add(a)
+        order = [n['name'] for n in spec['nodes']]
+        cands = [d for d in order if d != spec['input'] and succ.get(d)]
+        if not cands:
+            continue
+        d1 = rng.choice(cands)
+        anc1 = _closure(pred, d1)
+        if len(anc1) < 2:
+            continue
+        s1 = rng.choice(sorted(anc1))
+        P1 = path_set(spec, s1, d1)
+        inner_d = [x for x in P1 if x not in (s1, d1) and succ.get(x)]
+        if not inner_d:
+            continue
+        d2 = rng.choice(sorted(inner_d))
+        inner_s = [x for x in _closure(pred, d2) if x in P1]
+        if not inner_s:
+            continue
+        s2 = rng.choice(sorted(inner_s))
+        if s2 == s1 and rng.random() < 0.5:
+            continue
+        P2 = path_set(spec, s2, d2)
+        if _outside_reader(edges, P1, d1, _closure(succ, d1)) or _outside_reader(edges, P2, d2, _closure(succ, d2)):
+            continue
+        ok = True
+        for (s_, d_) in ((s1, d1), (s2, d2)):
+            cons = [c for c in sorted(succ[d_]) if any(p[1][0] == 'In' and p[1][1] == d_ for p in nodes[c]['params'])]
+            if not cons:
+                ok = False
+                break
+            c = rng.choice(cons)
+            mx = rng.choice([1, 2, 2, 3])
+            for p in nodes[c]['params']:
+                if p[1][0] == 'In' and p[1][1] == d_:
+                    p[1] = ['Rec', s_, d_, mx]
+                    break
+            nodes[d_]['rec'] = {'start': s_, 'k': rng.choice([0, 1, 1, 2, mx])}
+            nodes[s_]['add_data'] = True
+        if not ok:
+            continue
+        assign_modes(rng, spec['nodes'])
+        if faults:
+            decorate_faults(rng, spec, **kw)
+        for d_ in (d1, d2):
+            if rng.random() < 0.5:
+                r = nodes[d_].setdefault('retry', {'attempts': None, 'delay': None, 'exceptions': None})
+                r['use_default'] = True
+        spec['class'] = 'rec_nested'
+        return spec
+    return gen_rec(rng, faults=faults, n_max=n_max)
+
+
 def gen_input(rng):
     keys = rng.sample(['x', 'y', 'z'], rng.randint(1, 3))
     return {k: rng.choice([0, 1, 2, 3, 7, None, '', 'a', 'bc', -1]) for k in sorted(keys)}
 
 
-GENERATORS = {'plain': gen_plain, 'rec': gen_rec}
+GENERATORS = {'plain': gen_plain, 'rec': gen_rec, 'rec_nested': gen_rec_nested}
 
 
 # ---------------------------------------------------------------------------------------------
@@ -268,9 +349,9 @@ def carve_chained_oneof_with_fallback(spec):
     return False
 
 
-CARVE_OUTS = {
-    'chained_oneof_with_fallback': carve_chained_oneof_with_fallback,
-}
+# chained_oneof_with_fallback was the carve-out of former finding K02; the defect is repaired (F16), the predicate
+# is kept for triage only and no longer excludes anything
+CARVE_OUTS = {}
 
 
 def excluded(spec):
@@ -327,19 +408,40 @@ class Builder:
         return [[f'a{start + j}', ['In', s]] for j, s in enumerate(srcs)]
 
 
-def _private_chain(b, rng, depth, cfg, level):
-    """fresh private chain; returns the name of its top node.  The bottom reads public nodes."""
-    srcs = b.pick(rng.choice([1, 1, 2]))
-    if not srcs and b.public:
-        srcs = [b.public[0]]
-    top = b.new(b.in_params(srcs), public=False)
-    for _ in range(depth - 1):
-        extra = b.pick(rng.choice([0, 0, 1]), exclude=(top,))
-        params = b.in_params([top] + extra)
-        if level < cfg.get('max_nest', 1) and rng.random() < cfg.get('p_nest', 0.0):
+def _private_chain(b, rng, depth, cfg, level, shared=()):
+    """fresh private sub-pipeline of `depth` nodes; returns the name of its top node.
+
+    Not only chains: a node may have two private parents (so that several private nodes of one case /
+    candidate are in flight at once) and may read `shared` nodes (private to the construct but common to
+    several of its cases / candidates) besides public nodes."""
+    priv = []
+    consumed = set()
+    for i in range(depth):
+        last = i == depth - 1
+        srcs = []
+        if priv:
+            free = [p for p in priv if p not in consumed]
+            if last:
+                srcs = free[:3] if free else [priv[-1]]
+            else:
+                # branch (new leaf) or extend
+                if rng.random() < 0.35:
+                    srcs = []
+                else:
+                    srcs = rng.sample(priv, min(len(priv), rng.choice([1, 1, 2])))
+        if shared and rng.random() < (0.6 if not srcs else 0.25):
+            srcs.append(rng.choice(list(shared)))
+        if not srcs or rng.random() < 0.3:
+            srcs += b.pick(1, exclude=set(srcs))
+        if not srcs and b.public:
+            srcs = [b.public[0]]
+        srcs = list(dict.fromkeys(srcs))
+        consumed.update(x for x in srcs if x in priv)
+        params = b.in_params(srcs)
+        if priv and level < cfg.get('max_nest', 1) and rng.random() < cfg.get('p_nest', 0.0):
             params = _add_construct(b, rng, params, cfg, level + 1)
-        top = b.new(params, public=False)
-    return top
+        priv.append(b.new(params, public=False))
+    return priv[-1]
 
 
 def _used(params):
@@ -359,9 +461,28 @@ def _used(params):
 
 def _add_construct(b, rng, params, cfg, level):
     kind = rng.choice(cfg['constructs'])
+    if cfg.get('nest_same_kind') and level > 0 and getattr(b, 'kind_stack', None):
+        kind = b.kind_stack[-1]
+    if not hasattr(b, 'kind_stack'):
+        b.kind_stack = []
+    b.kind_stack.append(kind)
+    try:
+        return _add_construct_kind(b, rng, params, cfg, level, kind)
+    finally:
+        b.kind_stack.pop()
+
+
+def _add_construct_kind(b, rng, params, cfg, level, kind):
     used = _used(params)
     kw = f'a{len(params)}'
     shared = cfg.get('shared', False)
+    shared_priv = []
+    if rng.random() < cfg.get('p_shared_prefix', 0.35):
+        # a node private to this construct but common to several of its cases / candidates
+        shared_priv.append(_private_chain(b, rng, rng.choice([1, 1, 2]), cfg, level))
+        if kind == 'oneof' and getattr(b, 'faults', False) and rng.random() < 0.5:
+            # a failing node shared by several candidates of one one-of
+            b.nodes[-1]['plan'] = [rng.choice(['E1', 'E2', 'E3'])]
     if kind == 'switch':
         ncases = rng.choice([1, 2, 2, 3])
         dsrc = b.pick(rng.choice([1, 1, 2]))
@@ -375,7 +496,7 @@ def _add_construct(b, rng, params, cfg, level):
                     cases.append([lab, c[0]])
                     labels.append(lab)
                     continue
-            top = _private_chain(b, rng, rng.choice([1, 1, 2, 3]), cfg, level)
+            top = _private_chain(b, rng, rng.choice([1, 1, 2, 3]), cfg, level, shared_priv)
             if shared and rng.random() < 0.5:
                 b.public.append(top)
             cases.append([lab, top])
@@ -383,7 +504,8 @@ def _add_construct(b, rng, params, cfg, level):
         table = list(labels)
         if cfg.get('unknown_label') and rng.random() < 0.25:
             table.append('UNK')
-        d = b.new(b.in_params(dsrc), public=shared and rng.random() < 0.5, value={'labels': table})
+        d = b.new(b.in_params(dsrc), public=(shared or cfg.get('public_deciders')) and rng.random() < 0.5,
+                  value={'labels': table})
         b.nsw += 1
         name = f'sw{b.nsw}' if rng.random() < 0.8 else None
         params = params + [[kw, ['Switch', name, d, cases]]]
@@ -396,7 +518,7 @@ def _add_construct(b, rng, params, cfg, level):
                 if c:
                     cands.append(c[0])
                     continue
-            top = _private_chain(b, rng, rng.choice([1, 2, 2, 3, 4]), cfg, level)
+            top = _private_chain(b, rng, rng.choice([1, 2, 2, 3, 4]), cfg, level, shared_priv)
             if shared and rng.random() < 0.4:
                 b.public.append(top)
             cands.append(top)
@@ -406,6 +528,7 @@ def _add_construct(b, rng, params, cfg, level):
 
 def gen_constructs(rng, cfg, faults=True, n_max=9, **kw):
     b = Builder(rng)
+    b.faults = faults
     b.new([])
     n_main = rng.randint(2, max(2, n_max - 3))
     placed = 0
@@ -414,7 +537,7 @@ def gen_constructs(rng, cfg, faults=True, n_max=9, **kw):
         k = rng.choice([1, 1, 2, 2, 3]) if i else 1
         params = b.in_params(b.pick(k))
         want = rng.random() < cfg.get('p_construct', 0.45) or (last and placed == 0)
-        if want and len(b.nodes) < 14:
+        if want and len(b.nodes) < 16:
             params = _add_construct(b, rng, params, cfg, 0)
             placed += 1
             if rng.random() < 0.2 and len(b.nodes) < 14:
@@ -445,6 +568,8 @@ CFG = {
     'oneof': {'name': 'oneof', 'constructs': ['oneof'], 'shared': False, 'p_nest': 0.0},
     'oneof_nested': {'name': 'oneof_nested', 'constructs': ['oneof'], 'shared': False, 'p_nest': 0.3, 'max_nest': 2},
     'oneof_shared': {'name': 'oneof_shared', 'constructs': ['oneof'], 'shared': True, 'p_nest': 0.2, 'max_nest': 1},
+    'mix_main': {'name': 'mix_main', 'constructs': ['switch', 'oneof'], 'shared': False, 'p_nest': 0.25, 'max_nest': 2,
+                 'nest_same_kind': True, 'public_deciders': True, 'unknown_label': True},
     'switch_oneof': {'name': 'switch_oneof', 'constructs': ['switch', 'oneof'], 'shared': False, 'p_nest': 0.3,
                      'max_nest': 2},
 }
